@@ -15,7 +15,7 @@ Mirrors, branch by branch and in the order of the Go code:
 
 Cryptography is abstract (`Crypto`): key parsing / serialisation / ordering, signature parsing, `verify`, the address
 hash `h160 = ripemd160 ∘ sha256`, the transaction hash `H`.  `verify` has three outcomes because the library call
-`s.Verify` can panic: slice bounds for an Ethereum-type key and a `KECCAK256WithECDSA` signature shorter than 64 bytes;
+`s.Verify` can panic (the repaired `signature.verify` wrapper of /repo turns that into a failed verification, `guarded`): slice bounds for an Ethereum-type key and a `KECCAK256WithECDSA` signature shorter than 64 bytes;
 `crypto/elliptic: CombinedMult was called on an invalid point` for an uncompressed NIST-curve key that is not on the
 curve (`ec.DecodePublicKey` does not check) and an `SM3withSM2` signature.
 
@@ -52,12 +52,11 @@ inductive Variant | asShipped | sound
 /-- which of the recorded defects are repaired -/
 structure Cfg where
   dupKeys : Variant      -- .sound: a verification script that lists a key twice is rejected
-  shortSig : Variant     -- .sound: a panicking `s.Verify` call is guarded (counts as verification failure)
   fallback : Variant     -- .sound: `GetSignatureAddresses` derives addresses like the validator
   deriving DecidableEq, Repr
 
-def Cfg.asShipped : Cfg := ⟨.asShipped, .asShipped, .asShipped⟩
-def Cfg.sound : Cfg := ⟨.sound, .sound, .sound⟩
+def Cfg.asShipped : Cfg := ⟨.asShipped, .asShipped⟩
+def Cfg.sound : Cfg := ⟨.sound, .sound⟩
 
 inductive Verdict (α : Type) where
   | ok (a : α)
@@ -284,10 +283,11 @@ def setAddr {Key Sig : Type} (C : Lib Key Sig) (keys : List Key) (m : Nat) : Ver
 
 /-! ## signature.go -/
 
-/-- `s.Verify` as the configuration sees it: the repaired code turns the panic into a failed verification -/
-def vres (cfg : Cfg) (r : VRes) : VRes :=
+/-- the unexported `verify` wrapper of `core/signature/signature.go` (length check for Ethereum-type keys +
+`recover`): a panic of the library call `s.Verify` counts as a failed verification -/
+def guarded (r : VRes) : VRes :=
   match r with
-  | .panic => if cfg.shortSig = .sound then .bad else .panic
+  | .panic => .bad
   | r => r
 
 /-- `signature.Verify` -/
@@ -394,15 +394,15 @@ def checkSigsWith {Key Sig : Type} [DecidableEq Key] (cfg : Cfg) (C : Lib Key Si
     | .panic => .panic
 
 /-- `s.Verify(key, tx.Hash(), sig)` as configured: the one verification function the validator uses for `tx` -/
-def verifier {Key Sig : Type} (cfg : Cfg) (C : Crypto Key Sig) (tx : Tx) : Key → Sig → VRes :=
-  fun k s => vres cfg (C.verify k (txMsg C tx) s)
+def verifier {Key Sig : Type} (C : Crypto Key Sig) (tx : Tx) : Key → Sig → VRes :=
+  fun k s => guarded (C.verify k (txMsg C tx) s)
 
 /-- the accounts derived from the signature sets (the `address` map before the payer check) -/
 def derived {Key Sig : Type} [DecidableEq Key] (cfg : Cfg) (C : Crypto Key Sig) (tx : Tx) : Verdict (List Addr) :=
-  checkAll cfg C.toLib (verifier cfg C tx) tx.sigs
+  checkAll cfg C.toLib (verifier C tx) tx.sigs
 
 def checkSigs {Key Sig : Type} [DecidableEq Key] (cfg : Cfg) (C : Crypto Key Sig) (tx : Tx) : Verdict (List Addr) :=
-  checkSigsWith cfg C.toLib (verifier cfg C tx) tx
+  checkSigsWith cfg C.toLib (verifier C tx) tx
 
 inductive Code | noError | verifySignature | transactionPayload | panic
   deriving DecidableEq, Repr
@@ -449,6 +449,82 @@ def seen {Key Sig : Type} [DecidableEq Key] (cfg : Cfg) (C : Crypto Key Sig) (va
     | .ok addrs => if addrs.length = 0 then fallback cfg C.toLib tx else addrs
     | _ => fallback cfg C.toLib tx
   else fallback cfg C.toLib tx
+
+
+/-! ## The transaction as an object with state
+
+`types.Transaction` carries the exported, lazily filled field `SignedAddr`: `GetSignatureAddresses()` fills it from
+the raw verification scripts when it is empty (without verifying anything - the transaction pool calls that getter
+*before* validation: `isSenderLimited(txn.GetSignatureAddresses())`), `checkTransactionSignatures` overwrites it on
+success.  `Hash()` and `ToArray()` only read (`hash`, `Raw` are assigned once, at decoding time).
+The validator must not take anything from that state: `checkSigsObj` receives it and reads only `o.tx`. -/
+
+structure TxObj where
+  tx : Tx
+  signedAddr : List Addr        -- `tx.SignedAddr`; length 0 = not assigned
+  deriving Repr, DecidableEq
+
+/-- `Transaction.GetSignatureAddresses()`: result and new object state -/
+def getSigAddrs {Key Sig : Type} (cfg : Cfg) (C : Lib Key Sig) (o : TxObj) : List Addr × TxObj :=
+  if o.signedAddr.length = 0 then
+    let fb := fallback cfg C o.tx
+    (fb, { o with signedAddr := fb })
+  else (o.signedAddr, o)
+
+/-- `checkTransactionSignatures(tx)` on an object in any state: verdict and new state (`tx.SignedAddr = addrList`
+only on success).  The pre-state `o.signedAddr` is an input that the code does not consult. -/
+def checkSigsObj {Key Sig : Type} [DecidableEq Key] (cfg : Cfg) (C : Crypto Key Sig) (o : TxObj) :
+    Verdict (List Addr) × TxObj :=
+  match checkSigs cfg C o.tx with
+  | .ok addrs => (.ok addrs, { o with signedAddr := addrs })
+  | .reject => (.reject, o)
+  | .panic => (.panic, o)
+
+/-- `validation.VerifyTransaction(tx)` on an object in any state -/
+def verifyObj {Key Sig : Type} [DecidableEq Key] (cfg : Cfg) (C : Crypto Key Sig) (wasmOK : Bytes → Bool)
+    (o : TxObj) : Code × TxObj :=
+  match checkSigsObj cfg C o with
+  | (.reject, o') => (.verifySignature, o')
+  | (.panic, o') => (.panic, o')
+  | (.ok _, o') => if payloadOK wasmOK o.tx.payload then (.noError, o') else (.transactionPayload, o')
+
+/-- a validator that trusts a non-empty `SignedAddr` ("already established by a previous pass") - NOT what the code
+does; kept as the negative instance of `C16_accept_sound` -/
+def checkSigsObjTrusting {Key Sig : Type} [DecidableEq Key] (cfg : Cfg) (C : Crypto Key Sig) (o : TxObj) :
+    Verdict (List Addr) × TxObj :=
+  if o.signedAddr.length ≠ 0 then (.ok o.signedAddr, o) else checkSigsObj cfg C o
+
+/-- operations on the object that precede the final `VerifyTransaction` on an op line -/
+inductive PreOp
+  | getAddrs                    -- `tx.GetSignatureAddresses()`
+  | verify                      -- `validation.VerifyTransaction(tx)`
+  | hash                        -- `tx.Hash()`
+  | toArray                     -- `tx.ToArray()`
+  | setAddrs (as : List Addr)   -- direct assignment of the exported field
+  deriving Repr, DecidableEq
+
+/-- run one pre-operation; the `String`-free observable is a list of addresses / a code, rendered by the driver -/
+inductive PreOut
+  | addrs (as : List Addr)
+  | code (c : Code) (signed : List Addr)
+  | unit
+  deriving Repr, DecidableEq
+
+def runPre {Key Sig : Type} [DecidableEq Key] (cfg : Cfg) (C : Crypto Key Sig) (wasmOK : Bytes → Bool)
+    (o : TxObj) : PreOp → PreOut × TxObj
+  | .getAddrs => let (as, o') := getSigAddrs cfg C.toLib o; (.addrs as, o')
+  | .verify => let (c, o') := verifyObj cfg C wasmOK o; (.code c o'.signedAddr, o')
+  | .hash => (.unit, o)
+  | .toArray => (.unit, o)
+  | .setAddrs as => (.unit, { o with signedAddr := as })
+
+def runPres {Key Sig : Type} [DecidableEq Key] (cfg : Cfg) (C : Crypto Key Sig) (wasmOK : Bytes → Bool) :
+    TxObj → List PreOp → List PreOut × TxObj
+  | o, [] => ([], o)
+  | o, op :: r =>
+    let (x, o1) := runPre cfg C wasmOK o op
+    let (xs, o2) := runPres cfg C wasmOK o1 r
+    (x :: xs, o2)
 
 /-- same set of accounts -/
 def sameSet (a b : List Addr) : Prop := ∀ x, x ∈ a ↔ x ∈ b
